@@ -4,6 +4,7 @@
   of the base document).
 -/
 import Proofs.CommuteAround
+import PM.CommuteGuard
 namespace PM
 
 /-- the shape every replace-around step built by the library has (`lift`, `wrap`, `set_node_markup`,
@@ -14,6 +15,11 @@ def AroundShape (f t gf gt : Nat) (sl : Slice) (ins : Nat) : Prop :=
 
 instance (f t gf gt : Nat) (sl : Slice) (ins : Nat) : Decidable (AroundShape f t gf gt sl ins) := by
   unfold AroundShape; infer_instance
+
+/-- the executable form (PM/CommuteGuard.lean, tied to the real step objects) -/
+theorem aroundShape_iff (f t gf gt : Nat) (sl : Slice) (ins : Nat) :
+    aroundShape f t gf gt sl ins = true ↔ AroundShape f t gf gt sl ins := by
+  simp [aroundShape, AroundShape, and_assoc]
 
 theorem apply_replace_splice (S : Schema) (doc doc' : Node) (f t : Nat) (sl : Slice) (st : Bool)
     (h : S.apply (.replace f t sl st) doc = .ok doc') :
